@@ -43,13 +43,13 @@ MANIFEST = dict(
          "times: for every chart, every gap >= 0 and threshold >= 0 and EVERY sorted order of tied notes the result satisfies an "
          "independently written per-column specification (non-last notes filled by the stated rule, last note kept, other "
          "lists unchanged), note count and (column,time) multiset are preserved, no hold passes a later note of its column, the "
-         "last note is kept; the boolean oracle is proved sound. Two defect classes of the pinned tree are stated as *_refuted "
-         "theorems with witnesses (StepMania extra note lists stacked in; Quaver from_dict list default raises) and the property "
-         "is proved under the guards excluding them. The model is tied to the code on every run by in-Coq correspondence on "
+         "last note is kept, the operation is total; the boolean oracle is proved sound. One defect class of the pinned tree is "
+         "stated as *_refuted theorems with a witness (StepMania: mines/fakes/lifts/keysounds/rolls are stacked in and come back "
+         "duplicated) and the property is proved under the guard excluding it. The model is tied to the code on every run by in-Coq correspondence on "
          "charts of all five games, and the oracle is evaluated on the implementation's outputs.",
     note="Trusted: Coq kernel+VM, harness generator/serialiser (scaling to integers, interning of other lists' rows); binary64 "
          "exactness on dyadic inputs is checked per case, not proved; row order/labels and game-specific fields of rebuilt lists "
-         "are outside the property. Known findings: sm-extra-note-lists, qua-from-dict-list-default.",
+         "are outside the property. Known finding: sm-extra-note-lists.",
     technique="Coq proof over executable model + vm_compute correspondence against the implementation",
     design="4/C17")
 
@@ -63,7 +63,6 @@ GAMES = {
 }
 SM_EXTRA_HITS = ["fakes", "lifts", "keysounds", "mines"]
 KNOWN_SM = "sm-extra-note-lists"
-KNOWN_QUA = "qua-from-dict-list-default"
 
 
 # ------------------------------------------------------------------ generator
@@ -337,8 +336,6 @@ def _snapshot(m, intern):
     for name, lst in m.objs.items():
         cls = "hit" if isinstance(lst, HitList) else "hold" if isinstance(lst, HoldList) else "none"
         slot = "hits" if lst is m.hits else "holds" if lst is m.holds else "other"
-        props = lst._item_class()._props
-        listy = any(isinstance(v[1], (list, tuple)) for v in props.values())
         df = lst.df
         notes = []
         if cls != "none":
@@ -359,7 +356,7 @@ def _snapshot(m, intern):
             row = df.iloc[i]
             keyt = tuple((nm, _norm(row[nm])) for nm in names)
             ids.append(intern.setdefault(keyt, len(intern) + 1))
-        out.append({"name": name, "slot": slot, "cls": cls, "listy": bool(listy), "notes": notes, "ids": ids})
+        out.append({"name": name, "slot": slot, "cls": cls, "notes": notes, "ids": ids})
     return out
 
 
@@ -431,8 +428,8 @@ def _note(n, d, cls):
     c, o, ln = n
     cz = f"({c})" if c < 0 else str(c)
     if ln is None:
-        return f"H {cz} {_zi(Fr(*o), d)}"
-    return f"L {cz} {_zi(Fr(*o), d)} {_zi(Fr(*ln), d)}"
+        return f"nh {cz} {_zi(Fr(*o), d)}"
+    return f"nl {cz} {_zi(Fr(*o), d)} {_zi(Fr(*ln), d)}"
 
 
 def _chart(snap, d):
@@ -442,7 +439,7 @@ def _chart(snap, d):
         cls = {"hit": "CHit", "hold": "CHold", "none": "CNone"}[l["cls"]]
         notes = F.lst([_note(n, d, l["cls"]) for n in l["notes"]])
         ids = F.lst([F.z(i) for i in l["ids"]]) if l["slot"] == "other" else "[]"
-        items.append(f"TL {slot} {cls} {F.boolean(l['listy'])} {notes} {ids}")
+        items.append(f"TL {slot} {cls} {notes} {ids}")
     return F.lst(items)
 
 
@@ -538,14 +535,9 @@ def _extras_nonempty(out):
 def classify(case, out, kind):
     if kind != "spec" or not _in_domain(case, out):
         return None
-    n_notes = sum(len(l["notes"]) for l in out["in"] if l["cls"] != "none")
-    listy = any(l["listy"] for l in out["in"] if l["slot"] in ("hits", "holds"))
     if out["v"] is None:
-        # TimedList.from_dict raises on a list-valued default (Quaver keysounds) for every non-empty rebuilt list
-        if listy and n_notes >= 1 and out.get("exc", "").startswith("ValueError: Length of values") and out["unchanged"]:
-            return KNOWN_QUA
         return None
-    if _extras_nonempty(out) and not listy and _check(case, out, defect_mode=True):
+    if _extras_nonempty(out) and _check(case, out, defect_mode=True):
         # everything is as the rule says once the extra HitList/HoldList instances are counted as input of the
         # rebuilt hits/holds: exactly the duplication defect and nothing else
         return KNOWN_SM
